@@ -552,7 +552,9 @@ def gen_C13(rng, tier):
     import json as _json, os as _os
     ref = _json.load(open(_os.path.join(_os.path.dirname(_os.path.dirname(_os.path.abspath(__file__))), 'spec', 'data', 'mysql_errors_ref.json')))
     kinds = sorted(ref)
-    msgs = [b"", b"plain message", b"x" * 600, b"\xff\xfe bad utf8 \x80", b"has # hash #42000", b"nul\x00inside", b"\xff", b"#", b"#HY000", b"\xc3\xa9t\xc3\xa9"]
+    msgs = [b"", b"plain message", b"x" * 600, b"\xff\xfe bad utf8 \x80", b"has # hash #42000", b"nul\x00inside", b"\xff", b"#", b"#HY000", b"\xc3\xa9t\xc3\xa9",
+            # boundary positions: nothing is trimmed, terminated or escaped at either end of the message
+            b"trail\x00", b"\x00", b"\x00lead", b"trail ", b" lead", b"trail\n", b"trail\r\n", b"trail\xff", b"a\x00\x00", b"\x00\x00", b"tab\t", b"quote'\"", b"back\\"]
     sites = ["query", "prepare", "init", "use", "after0", "after1", "afterN", "bin_after1", "second", "exec", "zero_cols", "bin_partial"]
     out = []
     out.append({"id": "C13-table", "kind": "errtable"})
@@ -1450,6 +1452,20 @@ def gen_C20(rng, tier):
         if rng.random() < 0.5:
             junk = hdr(rng.randint(0, L), rng.getrandbits(8)) + junk
         out.append(raw_conv("C20-j%05d" % i, junk, chunks=rand_chunks(rng)))
+    # (6) every spelling of a USE statement over the characters the name extraction looks at (backtick, ';',
+    #     blank, a letter), up to 4 (quick) / 6 characters: each must reach on_init and get its reply - the
+    #     slicing of the name must not fail on unbalanced or lone quoting characters
+    k = 0
+    for L in range(0, (4 if tier == "quick" else 6) + 1):
+        for t in itertools.product(b"`; a", repeat=L):
+            if L > 4 and rng.random() < 0.5:
+                continue
+            c = Conv("C20-use%05d" % k, mode="lockstep")
+            k += 1
+            c.query((b"USE " if k % 2 else b"use ") + bytes(t), [op_init_ok()])
+            c.query(b"SELECT 1", [op_completed(1, 0)])
+            c.quit()
+            out.append(c.build())
     return out
 
 
